@@ -288,6 +288,16 @@ func VrfC16Pin() {
 	depth := []api.PinDepth{-1, 0, 1}[vrf_choice("depth", 3)]
 	pin.MaxDepth = depth
 	pin.Mode = depth.ToPinMode()
+	// the cluster itself builds pins whose mode is not the one their depth implies
+	// (the cluster-DAG entry of a sharded add, pins made by the REST API from
+	// ?mode=...): the depth is what the connector goes by
+	if depth != 1 && vrf_choice("mode_not_implied_by_depth", 2) == 1 {
+		if pin.Mode == api.PinModeDirect {
+			pin.Mode = api.PinModeRecursive
+		} else {
+			pin.Mode = api.PinModeDirect
+		}
+	}
 	withUpdate := vrf_choice("has_update_source", 2) == 1
 	if withUpdate {
 		pin.PinUpdate = vrfCid(1)
